@@ -1,8 +1,667 @@
-(* Proofs/BlochFacts.v — facts about Model/Bloch.v. *)
-From Coq Require Import List ZArith Bool Arith Lia.
+(* Proofs/BlochFacts.v — facts about Model/Bloch.v.
+
+   Main results (all over an abstract commutative ring with Leibniz equality, Section BlochRing):
+     bloch_intertwines : A_tiled . Phi = Phi . H(w)   for every well-formed unit cell, every nx, ny >= 1
+                         and all roots of unity wx^nx = wy^ny = 1  (Bloch's theorem for tile_unit_cell)
+     hk_gamma          : H(1,1) = real-space Hamiltonian of the cell
+     hk_hermitian      : H(w)^dagger = H(w) for |w| = 1, tb = conj t
+   and for the executable Gaussian-integer instance: hk_gauss_periodic_a/b, hk_gauss_gamma;
+   finally the specifications of the Q functionals (qabs_min, gap_size, gaps, ground_state_per_site,
+   lower_half, k_grid). *)
+From Coq Require Import List ZArith Bool Arith Lia ZifyBool Ring QArith Qabs.
 From Koala Require Import Gen.TilingGen Model.Lattice Model.Tiling Model.Bloch Proofs.TilingFacts.
 Import ListNotations.
 Open Scope Z_scope.
 
 Lemma gi_pow_periodic a : gi_pow (a + 4) = gi_pow a.
 Proof. unfold gi_pow. replace (a + 4) with (a + 1 * 4) by lia. now rewrite Z.mod_add by lia. Qed.
+
+(* ------------------------------------------------------------------ index arithmetic *)
+Lemma site_index_inj ns m s q k :
+  0 <= s < ns -> 0 <= k < ns -> m * ns + s = q * ns + k -> s = k /\ m = q.
+Proof.
+  intros Hs Hk E.
+  pose proof (f_equal (fun z => z / ns) E) as Ed. cbv beta in Ed. rewrite !cell_div in Ed by lia.
+  pose proof (f_equal (fun z => z mod ns) E) as Em. cbv beta in Em. rewrite !cell_mod in Em by lia.
+  auto.
+Qed.
+
+Lemma site_index_eqb ns m s q k :
+  0 <= s < ns -> 0 <= k < ns -> (m * ns + s =? q * ns + k) = (s =? k) && (m =? q).
+Proof.
+  intros Hs Hk.
+  destruct (Z.eqb_spec (m * ns + s) (q * ns + k)) as [E|E].
+  - destruct (site_index_inj ns m s q k Hs Hk E) as (-> & ->). now rewrite !Z.eqb_refl.
+  - destruct (Z.eqb_spec s k) as [->|]; [|reflexivity].
+    destruct (Z.eqb_spec m q) as [->|]; [|reflexivity]. contradiction.
+Qed.
+
+Lemma row_decompose M ns row : 0 <= row < M * ns -> 0 < ns ->
+  row = (row / ns) * ns + row mod ns /\ 0 <= row mod ns < ns /\ 0 <= row / ns < M.
+Proof.
+  intros Hr Hns. pose proof (Z.div_mod row ns ltac:(lia)). pose proof (Z.mod_pos_bound row ns ltac:(lia)).
+  split; [lia|]. split; [lia|]. split; [apply Z.div_pos; lia|]. apply Z.div_lt_upper_bound; lia.
+Qed.
+
+Lemma combine_map_l {A B C} (f : A -> C) (l : list A) (l' : list B) :
+  combine (map f l) l' = map (fun p => (f (fst p), snd p)) (combine l l').
+Proof. revert l'; induction l as [|a l IH]; intros [|b l']; simpl; auto. f_equal; auto. Qed.
+
+Lemma in_combine_map {A B} (f : A -> B) (l : list A) x y : In (x, y) (combine l (map f l)) -> y = f x.
+Proof.
+  induction l as [|a l IH]; simpl; [tauto|]. intros [E|H]; [inversion E; reflexivity|auto].
+Qed.
+
+(* ================================================================== the ring section *)
+Section BlochRing.
+  Variable R : Type.
+  Variables (rO rI : R) (radd rmul rsub : R -> R -> R) (ropp : R -> R).
+  Hypothesis Rth : ring_theory rO rI radd rmul rsub ropp (@eq R).
+  Add Ring Rring : Rth.
+
+  Local Notation "x [+] y" := (radd x y) (at level 50, left associativity).
+  Local Notation "x [*] y" := (rmul x y) (at level 40, left associativity).
+  Local Notation sum := (rsum R rO radd).
+  Local Notation pow := (rpow R rI rmul).
+  Local Notation zp := (zpow R rI rmul).
+  Local Notation ph := (phase R rI rmul).
+  Local Notation bt := (bond_term R rO radd).
+  Local Notation ham := (ham_entry R rO radd).
+  Local Notation hkw := (hk_weights R rI rmul).
+  Local Notation hk := (hk_entry R rO rI radd rmul).
+  Local Notation mm := (mat_mul R rO radd rmul).
+  Local Notation Phi := (bloch_phi R rO rI rmul).
+  Local Notation tw := (tile_weights R).
+
+  (* ---------------------------------------------------------------- a. finite sums *)
+  Lemma rsum_nil : sum [] = rO.
+  Proof. reflexivity. Qed.
+  Lemma rsum_cons x l : sum (x :: l) = x [+] sum l.
+  Proof. reflexivity. Qed.
+
+  Lemma rsum_app l l' : sum (l ++ l') = sum l [+] sum l'.
+  Proof.
+    induction l as [|a l IH]; [rewrite app_nil_l, rsum_nil; ring|].
+    rewrite <- app_comm_cons, !rsum_cons, IH. ring.
+  Qed.
+
+  Lemma rsum_map_add {A} (f g : A -> R) l :
+    sum (map (fun x => f x [+] g x) l) = sum (map f l) [+] sum (map g l).
+  Proof.
+    induction l as [|a l IH]; cbn [map]; rewrite ?rsum_nil, ?rsum_cons; [ring|]. rewrite IH. ring.
+  Qed.
+
+  Lemma rsum_mul_l {A} k (f : A -> R) l : k [*] sum (map f l) = sum (map (fun x => k [*] f x) l).
+  Proof.
+    induction l as [|a l IH]; cbn [map]; rewrite ?rsum_nil, ?rsum_cons; [ring|]. rewrite <- IH. ring.
+  Qed.
+
+  Lemma rsum_mul_r {A} k (f : A -> R) l : sum (map f l) [*] k = sum (map (fun x => f x [*] k) l).
+  Proof.
+    induction l as [|a l IH]; cbn [map]; rewrite ?rsum_nil, ?rsum_cons; [ring|]. rewrite <- IH. ring.
+  Qed.
+
+  Lemma rsum_ext {A} (f g : A -> R) l : (forall x, In x l -> f x = g x) -> sum (map f l) = sum (map g l).
+  Proof. intros H. f_equal. apply map_ext_in. exact H. Qed.
+
+  Lemma rsum_zero {A} (f : A -> R) l : (forall x, In x l -> f x = rO) -> sum (map f l) = rO.
+  Proof.
+    induction l as [|a l IH]; intros H; cbn [map]; rewrite ?rsum_nil, ?rsum_cons; [reflexivity|].
+    rewrite IH by (intros; apply H; right; assumption). rewrite (H a) by (left; reflexivity). ring.
+  Qed.
+
+  Lemma rsum_swap {A B} (f : A -> B -> R) l l' :
+    sum (map (fun x => sum (map (fun y => f x y) l')) l)
+    = sum (map (fun y => sum (map (fun x => f x y) l)) l').
+  Proof.
+    induction l as [|a l IH]; cbn [map].
+    - rewrite rsum_nil. symmetry. apply rsum_zero. reflexivity.
+    - rewrite rsum_cons, IH, <- rsum_map_add. apply rsum_ext. intros y _. reflexivity.
+  Qed.
+
+  Lemma rsum_flat_map {A B} (g : B -> R) (f : A -> list B) l :
+    sum (map g (flat_map f l)) = sum (map (fun x => sum (map g (f x))) l).
+  Proof.
+    induction l as [|a l IH]; cbn [flat_map map]; [reflexivity|].
+    rewrite map_app, rsum_app, rsum_cons, IH. reflexivity.
+  Qed.
+
+  Lemma rsum_delta {A} (f : A -> R) l p :
+    NoDup l -> In p l -> (forall x, In x l -> x <> p -> f x = rO) -> sum (map f l) = f p.
+  Proof.
+    induction l as [|a l IH]; intros ND Hin Hz; [destruct Hin|].
+    inversion ND as [|? ? Hna ND']; subst. cbn [map]. rewrite rsum_cons. destruct Hin as [->|Hin].
+    - rewrite rsum_zero; [ring|]. intros x Hx. apply Hz; [right; assumption|]. intros ->. contradiction.
+    - rewrite IH; auto.
+      + rewrite (Hz a); [ring|left; reflexivity|]. intros ->. contradiction.
+      + intros x Hx. apply Hz. right; assumption.
+  Qed.
+
+  Lemma rsum_delta_zrange M p (f : Z -> R) : 0 <= p < M ->
+    sum (map (fun b => if b =? p then f b else rO) (zrange M)) = f p.
+  Proof.
+    intros Hp. rewrite rsum_delta with (p := p).
+    - now rewrite Z.eqb_refl.
+    - apply NoDup_zrange.
+    - now apply In_zrange.
+    - intros x _ Hne. destruct (Z.eqb_spec x p); congruence.
+  Qed.
+
+  (* ---------------------------------------------------------------- powers *)
+  Lemma pow_S w k : pow w (S k) = w [*] pow w k.
+  Proof. reflexivity. Qed.
+  Lemma pow_one n : pow rI n = rI.
+  Proof. induction n as [|n IH]; [reflexivity|]. rewrite pow_S, IH. ring. Qed.
+  Lemma pow_mul a b n : pow (a [*] b) n = pow a n [*] pow b n.
+  Proof. induction n as [|n IH]; [cbn; ring|]. rewrite !pow_S, IH. ring. Qed.
+  Lemma pow_inv_root w wi n : w [*] wi = rI -> pow w n = rI -> pow wi n = rI.
+  Proof.
+    intros Hi Hp. transitivity (pow wi n [*] pow w n); [rewrite Hp; ring|].
+    rewrite <- pow_mul. replace (wi [*] w) with rI by (rewrite <- Hi; ring). apply pow_one.
+  Qed.
+  Lemma zpow_opp w wi c : zp w wi (- c) = zp wi w c.
+  Proof. destruct c; reflexivity. Qed.
+  Lemma zpow_one c : zp rI rI c = rI.
+  Proof. destruct c; cbn [zpow]; [reflexivity|apply pow_one|apply pow_one]. Qed.
+  Lemma phase_one c : ph rI rI rI rI c = rI.
+  Proof. unfold phase. rewrite !zpow_one. ring. Qed.
+
+  (* 1-D character property: stepping x by c in {-1,0,1} modulo n multiplies w^x by w^c when w^n = 1 *)
+  Lemma pow_shift_mod w wi n x c :
+    1 <= n -> 0 <= x < n -> -1 <= c <= 1 -> w [*] wi = rI -> pow w (Z.to_nat n) = rI ->
+    pow w (Z.to_nat ((x + c) mod n)) = pow w (Z.to_nat x) [*] zp w wi c.
+  Proof.
+    intros Hn Hx Hc Hi Hp.
+    assert (Hc' : c = -1 \/ c = 0 \/ c = 1) by lia. destruct Hc' as [Hc' | [Hc' | Hc']]; subst c.
+    - change (zp w wi (-1)) with (wi [*] rI).
+      destruct (Z.eq_dec x 0) as [->|Hx0].
+      + replace ((0 + -1) mod n) with (n - 1) by (apply Z.mod_unique with (-1); lia).
+        replace (Z.to_nat n) with (S (Z.to_nat (n - 1))) in Hp by lia. rewrite pow_S in Hp.
+        change (pow w (Z.to_nat 0)) with rI.
+        set (P := pow w (Z.to_nat (n - 1))) in *.
+        transitivity ((w [*] P) [*] wi).
+        * transitivity (P [*] (w [*] wi)); [rewrite Hi; ring|ring].
+        * rewrite Hp. ring.
+      + replace ((x + -1) mod n) with (x - 1) by (symmetry; apply Z.mod_small; lia).
+        replace (Z.to_nat x) with (S (Z.to_nat (x - 1))) by lia. rewrite pow_S.
+        transitivity (pow w (Z.to_nat (x - 1)) [*] (w [*] wi)); [rewrite Hi; ring|ring].
+    - rewrite Z.add_0_r, Z.mod_small by lia. change (zp w wi 0) with rI. ring.
+    - change (zp w wi 1) with (w [*] rI).
+      destruct (Z.eq_dec (x + 1) n) as [E|E].
+      + replace ((x + 1) mod n) with 0 by (rewrite E; symmetry; apply Z.mod_same; lia).
+        replace (Z.to_nat n) with (S (Z.to_nat x)) in Hp by lia. rewrite pow_S in Hp.
+        change (pow w (Z.to_nat 0)) with rI.
+        transitivity (w [*] pow w (Z.to_nat x)); [symmetry; exact Hp|ring].
+      + rewrite Z.mod_small by lia.
+        replace (Z.to_nat (x + 1)) with (S (Z.to_nat x)) by lia. rewrite pow_S. ring.
+  Qed.
+
+  (* ---------------------------------------------------------------- b. bond sums as sums over the unit edges *)
+  Lemma bond_collapse M row jE kE te tbe (F : Z -> R) : 0 <= jE < M -> 0 <= kE < M ->
+    sum (map (fun b => bt row b ((jE, kE), (te, tbe)) [*] F b) (zrange M))
+    = (if row =? kE then te [*] F jE else rO) [+] (if row =? jE then tbe [*] F kE else rO).
+  Proof.
+    intros Hj Hk. unfold bond_term. cbn [fst snd].
+    rewrite rsum_ext with
+      (g := fun b => (if b =? jE then (if row =? kE then te [*] F b else rO) else rO)
+                     [+] (if b =? kE then (if row =? jE then tbe [*] F b else rO) else rO)).
+    - rewrite rsum_map_add.
+      rewrite (rsum_delta_zrange M jE (fun b => if row =? kE then te [*] F b else rO)) by assumption.
+      rewrite (rsum_delta_zrange M kE (fun b => if row =? jE then tbe [*] F b else rO)) by assumption.
+      reflexivity.
+    - intros b _. destruct (row =? kE), (b =? jE), (row =? jE), (b =? kE); cbn; ring.
+  Qed.
+
+  Lemma ham_tiled_expand c nx ny t tb a b :
+    length (uc_edges c) = length (uc_crossing c) ->
+    length t = length (uc_edges c) -> length tb = length (uc_edges c) ->
+    ham (tile_edges c nx ny) (tw t nx ny) (tw tb nx ny) a b
+    = sum (map (fun n => sum (map (fun x => bt a b (tile_edge nx ny (n_sites c) n (fst x), snd x))
+                                  (combine (combine (uc_edges c) (uc_crossing c)) (combine t tb))))
+               (zrange (nx * ny))).
+  Proof.
+    intros Hl Ht Htb. unfold ham_entry, bond_sum, tile_edges, tile_weights.
+    rewrite (combine_flat_map (fun _ : Z => t) (fun _ : Z => tb)) by (intros; congruence).
+    rewrite combine_flat_map by (intros; rewrite map_length, !combine_length; lia).
+    rewrite rsum_flat_map. apply rsum_ext. intros n _.
+    rewrite combine_map_l, map_map. reflexivity.
+  Qed.
+
+  (* the Bloch bond of a unit edge: t * w^c at [k,j], tb * w^{-c} at [j,k] *)
+  Definition hedge (wx wxi wy wyi : R) (x : ((Z * Z) * (Z * Z)) * (R * R)) : (Z * Z) * (R * R) :=
+    (fst (fst x), (fst (snd x) [*] ph wx wxi wy wyi (snd (fst x)),
+                   snd (snd x) [*] ph wx wxi wy wyi (negc (snd (fst x))))).
+
+  Lemma hk_combine es cr t tb wx wxi wy wyi :
+    combine es (combine (hkw wx wxi wy wyi t cr) (hkw wx wxi wy wyi tb (map negc cr)))
+    = map (hedge wx wxi wy wyi) (combine (combine es cr) (combine t tb)).
+  Proof.
+    unfold hk_weights. revert cr t tb.
+    induction es as [|e es IH]; intros [|c cr] [|x t] [|y tb]; simpl; try reflexivity.
+    f_equal. apply IH.
+  Qed.
+
+  Lemma hk_expand es cr t tb wx wxi wy wyi a b :
+    hk es cr t tb wx wxi wy wyi a b
+    = sum (map (fun x => bt a b (hedge wx wxi wy wyi x)) (combine (combine es cr) (combine t tb))).
+  Proof. unfold hk_entry, bond_sum. rewrite hk_combine, map_map. reflexivity. Qed.
+
+  (* ---------------------------------------------------------------- (1) Bloch's theorem for the tiling *)
+  (* the Bloch factor of cell n = my*nx + mx :  w1^mx * w2^my *)
+  Definition bloch_factor (nx : Z) (w1 w2 : R) (n : Z) : R :=
+    pow w1 (Z.to_nat (n mod nx)) [*] pow w2 (Z.to_nat (n / nx)).
+
+  Lemma bloch_phi_site nx ns w1 w2 j n s' : 0 <= j < ns ->
+    Phi nx ns w1 w2 (j + n * ns) s' = if j =? s' then bloch_factor nx w1 w2 n else rO.
+  Proof.
+    intros Hj. unfold bloch_phi, bloch_factor.
+    replace (j + n * ns) with (n * ns + j) by lia. rewrite cell_mod, cell_div by lia. reflexivity.
+  Qed.
+
+  Lemma bloch_phi_row nx ns w1 w2 row s' :
+    Phi nx ns w1 w2 row s' = if row mod ns =? s' then bloch_factor nx w1 w2 (row / ns) else rO.
+  Proof. reflexivity. Qed.
+
+  Section Intertwine.
+    Variables (c : unit_cell) (nx ny : Z) (t tb : list R) (wx wxi wy wyi : R).
+    Hypothesis Hwf : wf_cell c = true.
+    Hypothesis Hnx : 1 <= nx.
+    Hypothesis Hny : 1 <= ny.
+    Hypothesis Ht : zlen t = n_uedges c.
+    Hypothesis Htb : zlen tb = n_uedges c.
+    Hypothesis Hwx : wx [*] wxi = rI.
+    Hypothesis Hwy : wy [*] wyi = rI.
+    Hypothesis Hpx : pow wx (Z.to_nat nx) = rI.
+    Hypothesis Hpy : pow wy (Z.to_nat ny) = rI.
+
+    Local Notation N := (nx * ny).
+    Local Notation ns := (n_sites c).
+    Local Notation phi := (bloch_factor nx wxi wyi).
+    Local Notation next := (py_next_cell_number nx ny).
+    Local Notation U := (combine (combine (uc_edges c) (uc_crossing c)) (combine t tb)).
+
+    Lemma wf_U x : In x U ->
+      0 <= fst (fst (fst x)) < ns /\ 0 <= snd (fst (fst x)) < ns /\
+      -1 <= fst (snd (fst x)) <= 1 /\ -1 <= snd (snd (fst x)) <= 1.
+    Proof.
+      destruct x as [[e cr] w]. intros Hin. apply in_combine_l in Hin.
+      pose proof (in_combine_l _ _ _ _ Hin) as He. pose proof (in_combine_r _ _ _ _ Hin) as Hc.
+      pose proof Hwf as W. unfold wf_cell in W. rewrite !andb_true_iff in W.
+      destruct W as (((H1 & H2) & H3) & H4). rewrite forallb_forall in H3, H4.
+      specialize (H3 _ Hc). specialize (H4 _ He). unfold small_crossing in H3. cbn [fst snd]. lia.
+    Qed.
+
+    (* the character property of the Bloch factor under _next_cell_number *)
+    Lemma phi_next m cx cy : 0 <= m < N -> -1 <= cx <= 1 -> -1 <= cy <= 1 ->
+      phi (next m (cx, cy)) = phi m [*] (zp wxi wx cx [*] zp wyi wy cy).
+    Proof.
+      intros Hm Hcx Hcy. destruct (cell_decompose nx ny m Hnx Hm) as (Em & Hmx & Hmy).
+      rewrite Em at 1. rewrite next_cell_number_spec by lia. unfold bloch_factor.
+      rewrite cell_mod, cell_div by (apply Z.mod_pos_bound; lia).
+      assert (Hxi : wxi [*] wx = rI) by (rewrite <- Hwx; ring).
+      assert (Hyi : wyi [*] wy = rI) by (rewrite <- Hwy; ring).
+      rewrite (pow_shift_mod wxi wx nx), (pow_shift_mod wyi wy ny);
+        try lia; try assumption; try (eapply pow_inv_root; eassumption).
+      ring.
+    Qed.
+
+    (* steps c-d of the derivation for one unit edge: sum over the cells *)
+    Lemma edge_cells row s' j k cx cy te tbe :
+      0 <= row < N * ns -> 0 <= s' < ns -> 0 <= j < ns -> 0 <= k < ns -> -1 <= cx <= 1 -> -1 <= cy <= 1 ->
+      sum (map (fun n =>
+                  (if row =? k + ns * next n (cx, cy)
+                   then te [*] Phi nx ns wxi wyi (j + n * ns) s' else rO)
+                  [+] (if row =? j + n * ns
+                       then tbe [*] Phi nx ns wxi wyi (k + ns * next n (cx, cy)) s' else rO))
+               (zrange N))
+      = phi (row / ns) [*] bt (row mod ns) s' (hedge wx wxi wy wyi (((j, k), (cx, cy)), (te, tbe))).
+    Proof.
+      intros Hrow Hs' Hj Hk Hcx Hcy.
+      destruct (row_decompose N ns row Hrow ltac:(lia)) as (Er & Hs & Hm).
+      set (m := row / ns) in *. set (s := row mod ns) in *.
+      rewrite rsum_map_add.
+      (* first sum: delta at n = next m (-c) *)
+      rewrite rsum_ext with
+        (g := fun n => if n =? next m (- cx, - cy)
+                       then (if s =? k then te [*] (if j =? s' then phi n else rO) else rO) else rO).
+      2:{ intros n Hn. apply In_zrange in Hn. rewrite bloch_phi_site by lia.
+          rewrite Er. replace (k + ns * next n (cx, cy)) with (next n (cx, cy) * ns + k) by lia.
+          rewrite site_index_eqb by lia.
+          pose proof (next_cell_number_iff nx ny n m (cx, cy) Hnx Hny Hn Hm) as Hiff. cbn [fst snd] in Hiff.
+          destruct (Z.eqb_spec n (next m (- cx, - cy))) as [E|E].
+          - apply Hiff in E. rewrite E, Z.eqb_refl, andb_true_r. reflexivity.
+          - destruct (Z.eqb_spec m (next n (cx, cy))) as [E'|E'].
+            + exfalso. apply E. apply Hiff. symmetry. exact E'.
+            + rewrite andb_false_r. reflexivity. }
+      rewrite (rsum_delta_zrange N (next m (- cx, - cy))
+                 (fun n => if s =? k then te [*] (if j =? s' then phi n else rO) else rO))
+        by (apply next_cell_number_range; lia).
+      (* second sum: delta at n = m *)
+      rewrite rsum_ext with
+        (g := fun n => if n =? m
+                       then (if s =? j then tbe [*] (if k =? s' then phi (next n (cx, cy)) else rO) else rO)
+                       else rO).
+      2:{ intros n Hn. apply In_zrange in Hn.
+          replace (k + ns * next n (cx, cy)) with (k + next n (cx, cy) * ns) by lia.
+          rewrite bloch_phi_site by lia.
+          rewrite Er. replace (j + n * ns) with (n * ns + j) by lia.
+          rewrite site_index_eqb by lia. rewrite (Z.eqb_sym m n).
+          destruct (n =? m); [rewrite andb_true_r|rewrite andb_false_r]; reflexivity. }
+      rewrite (rsum_delta_zrange N m
+                 (fun n => if s =? j then tbe [*] (if k =? s' then phi (next n (cx, cy)) else rO) else rO))
+        by lia.
+      rewrite !phi_next by lia. rewrite !zpow_opp.
+      unfold bond_term, hedge, phase, negc. cbn [fst snd]. rewrite !zpow_opp.
+      rewrite (Z.eqb_sym s' j), (Z.eqb_sym s' k).
+      destruct (s =? k), (j =? s'), (s =? j), (k =? s'); cbn [andb]; ring.
+    Qed.
+
+    (* Bloch's theorem:  A_tiled . Phi = Phi . H(w),  Phi[(m,s),s'] = delta_{s s'} wx^{-mx} wy^{-my} *)
+    Theorem bloch_intertwines row s' : 0 <= row < N * ns -> 0 <= s' < ns ->
+      mm (N * ns) (ham (tile_edges c nx ny) (tw t nx ny) (tw tb nx ny)) (Phi nx ns wxi wyi) row s'
+      = mm ns (Phi nx ns wxi wyi) (hk (uc_edges c) (uc_crossing c) t tb wx wxi wy wyi) row s'.
+    Proof.
+      intros Hrow Hs'.
+      destruct (row_decompose N ns row Hrow ltac:(lia)) as (Er & Hs & Hm).
+      assert (Hl : length (uc_edges c) = length (uc_crossing c)).
+      { destruct (wf_cell_spec c Hwf) as (_ & Hl & _). unfold zlen in Hl. lia. }
+      assert (Ht' : length t = length (uc_edges c)) by (unfold n_uedges, zlen in Ht; lia).
+      assert (Htb' : length tb = length (uc_edges c)) by (unfold n_uedges, zlen in Htb; lia).
+      (* right-hand side *)
+      transitivity (phi (row / ns) [*] hk (uc_edges c) (uc_crossing c) t tb wx wxi wy wyi (row mod ns) s').
+      2:{ unfold mat_mul.
+          rewrite rsum_ext with
+            (g := fun b => if b =? row mod ns
+                           then phi (row / ns) [*] hk (uc_edges c) (uc_crossing c) t tb wx wxi wy wyi b s'
+                           else rO).
+          - rewrite (rsum_delta_zrange ns (row mod ns)
+                       (fun b => phi (row / ns) [*] hk (uc_edges c) (uc_crossing c) t tb wx wxi wy wyi b s'))
+              by lia.
+            reflexivity.
+          - intros b _. rewrite bloch_phi_row, (Z.eqb_sym b). destruct (row mod ns =? b); ring. }
+      (* left-hand side *)
+      unfold mat_mul.
+      transitivity
+        (sum (map (fun b => sum (map (fun n => sum (map (fun x =>
+                     bt row b (tile_edge nx ny ns n (fst x), snd x) [*] Phi nx ns wxi wyi b s') U))
+                   (zrange N))) (zrange (N * ns)))).
+      { apply rsum_ext. intros b _. rewrite ham_tiled_expand by assumption. rewrite rsum_mul_r.
+        apply rsum_ext. intros n _. rewrite rsum_mul_r. reflexivity. }
+      rewrite (rsum_swap (fun b n => sum (map (fun x =>
+                 bt row b (tile_edge nx ny ns n (fst x), snd x) [*] Phi nx ns wxi wyi b s') U))).
+      transitivity
+        (sum (map (fun n => sum (map (fun x =>
+           (if row =? snd (fst (fst x)) + ns * next n (snd (fst x))
+            then fst (snd x) [*] Phi nx ns wxi wyi (fst (fst (fst x)) + n * ns) s' else rO)
+           [+] (if row =? fst (fst (fst x)) + n * ns
+                then snd (snd x) [*] Phi nx ns wxi wyi (snd (fst (fst x)) + ns * next n (snd (fst x))) s'
+                else rO)) U)) (zrange N))).
+      { apply rsum_ext. intros n Hn. apply In_zrange in Hn.
+        rewrite (rsum_swap (fun b x =>
+                   bt row b (tile_edge nx ny ns n (fst x), snd x) [*] Phi nx ns wxi wyi b s')).
+        apply rsum_ext. intros x Hx. destruct (wf_U x Hx) as (Hj & Hk & Hcx & Hcy).
+        destruct x as [[[j k] cr] [te tbe]]. unfold tile_edge. cbn [fst snd] in *.
+        pose proof (next_cell_number_range nx ny n cr Hnx Hny) as Hnext.
+        apply (bond_collapse (N * ns) row _ _ te tbe (fun b => Phi nx ns wxi wyi b s')); nia. }
+      rewrite (rsum_swap (fun n x =>
+           (if row =? snd (fst (fst x)) + ns * next n (snd (fst x))
+            then fst (snd x) [*] Phi nx ns wxi wyi (fst (fst (fst x)) + n * ns) s' else rO)
+           [+] (if row =? fst (fst (fst x)) + n * ns
+                then snd (snd x) [*] Phi nx ns wxi wyi (snd (fst (fst x)) + ns * next n (snd (fst x))) s'
+                else rO))).
+      rewrite hk_expand, rsum_mul_l. apply rsum_ext. intros x Hx.
+      destruct (wf_U x Hx) as (Hj & Hk & Hcx & Hcy).
+      destruct x as [[[j k] [cx cy]] [te tbe]]. cbn [fst snd] in *.
+      apply edge_cells; assumption.
+    Qed.
+  End Intertwine.
+
+  (* ---------------------------------------------------------------- (2) Gamma point *)
+  Lemma hk_gamma_combine es cr (t tb : list R) :
+    (Nat.min (length es) (Nat.min (length t) (length tb)) <= length cr)%nat ->
+    map (hedge rI rI rI rI) (combine (combine es cr) (combine t tb)) = combine es (combine t tb).
+  Proof.
+    revert cr t tb.
+    induction es as [|e es IH]; intros [|c cr] [|x t] [|y tb] H; cbn [length] in H; simpl;
+      try reflexivity; try lia.
+    f_equal.
+    - unfold hedge. cbn [fst snd]. rewrite !phase_one. f_equal. f_equal; ring.
+    - apply IH. lia.
+  Qed.
+
+  (* at wx = wy = 1 the Bloch matrix is the real-space Hamiltonian of the cell (the crossing list must
+     cover the bonds that are actually summed) *)
+  Theorem hk_gamma es cr t tb a b :
+    (Nat.min (length es) (Nat.min (length t) (length tb)) <= length cr)%nat ->
+    hk es cr t tb rI rI rI rI a b = ham es t tb a b.
+  Proof.
+    intros H. rewrite hk_expand. unfold ham_entry, bond_sum.
+    rewrite <- (hk_gamma_combine es cr t tb H), map_map. reflexivity.
+  Qed.
+
+  Corollary hk_gamma_eqlen es cr t tb a b :
+    length t = length cr -> length tb = length cr ->
+    hk es cr t tb rI rI rI rI a b = ham es t tb a b.
+  Proof. intros. apply hk_gamma. lia. Qed.
+
+  (* ---------------------------------------------------------------- (3) Hermiticity *)
+  Section Hermitian.
+    Variable conj : R -> R.
+    Hypothesis conj_add : forall x y, conj (x [+] y) = conj x [+] conj y.
+    Hypothesis conj_mul : forall x y, conj (x [*] y) = conj x [*] conj y.
+    Hypothesis conj_O : conj rO = rO.
+    Hypothesis conj_I : conj rI = rI.
+    Hypothesis conj_inv : forall x, conj (conj x) = x.
+    Variables wx wxi wy wyi : R.
+    Hypothesis Hcx : conj wx = wxi.
+    Hypothesis Hcy : conj wy = wyi.
+
+    Lemma conj_sum l : conj (sum l) = sum (map conj l).
+    Proof.
+      induction l as [|a l IH]; cbn [map]; rewrite ?rsum_nil, ?rsum_cons; [exact conj_O|].
+      now rewrite conj_add, IH.
+    Qed.
+    Lemma conj_pow w n : conj (pow w n) = pow (conj w) n.
+    Proof. induction n as [|n IH]; [exact conj_I|]. now rewrite !pow_S, conj_mul, IH. Qed.
+    Lemma conj_zpow w wi k : conj w = wi -> conj (zp w wi k) = zp wi w k.
+    Proof.
+      intros Hw. assert (Hwi : conj wi = w) by (rewrite <- Hw; apply conj_inv).
+      destruct k; cbn [zpow]; [exact conj_I| |]; rewrite conj_pow; congruence.
+    Qed.
+    Lemma conj_phase k : conj (ph wx wxi wy wyi k) = ph wx wxi wy wyi (negc k).
+    Proof.
+      unfold phase, negc. cbn [fst snd]. rewrite conj_mul, !conj_zpow, !zpow_opp by assumption. reflexivity.
+    Qed.
+    Lemma negc_involutive k : negc (negc k) = k.
+    Proof. destruct k. unfold negc. cbn [fst snd]. now rewrite !Z.opp_involutive. Qed.
+
+    (* H(w)^dagger = H(w)  when |wx| = |wy| = 1 and tb = conj t *)
+    Theorem hk_hermitian es cr t a b :
+      conj (hk es cr t (map conj t) wx wxi wy wyi b a) = hk es cr t (map conj t) wx wxi wy wyi a b.
+    Proof.
+      rewrite !hk_expand, conj_sum, map_map. apply rsum_ext. intros x Hx.
+      destruct x as [[[j k] cc] [te tbe]].
+      apply in_combine_r in Hx. apply in_combine_map in Hx. subst tbe.
+      unfold bond_term, hedge. cbn [fst snd]. rewrite conj_add.
+      rewrite (andb_comm (a =? k)), (andb_comm (a =? j)).
+      destruct ((b =? k) && (a =? j)), ((b =? j) && (a =? k));
+        rewrite ?conj_mul, ?conj_O, ?conj_phase, ?conj_inv, ?negc_involutive; ring.
+    Qed.
+  End Hermitian.
+End BlochRing.
+
+(* ================================================================== (4) the Gaussian-integer instance *)
+Definition gopp (x : gz) : gz := (- fst x, - snd x).
+Definition gsub (x y : gz) : gz := gadd x (gopp y).
+
+Lemma gz_ring : ring_theory g0 g1 gadd gmul gsub gopp (@eq gz).
+Proof.
+  constructor; intros;
+    repeat match goal with x : gz |- _ => destruct x end;
+    unfold gsub; unfold gadd, gmul, gopp, g0, g1; cbn [fst snd]; f_equal; ring.
+Qed.
+
+Lemma gconj_gi_pow q : gconj (gi_pow q) = gi_pow (- q).
+Proof.
+  unfold gi_pow. pose proof (Z.mod_pos_bound q 4 ltac:(lia)) as Hb.
+  pose proof (Z.div_mod q 4 ltac:(lia)) as Hd.
+  replace (- q) with (- (q mod 4) + (- (q / 4)) * 4) by lia. rewrite Z.mod_add by lia.
+  assert (Hr : q mod 4 = 0 \/ q mod 4 = 1 \/ q mod 4 = 2 \/ q mod 4 = 3) by lia.
+  destruct Hr as [E|[E|[E|E]]]; rewrite E; reflexivity.
+Qed.
+
+Lemma gi_pow_neg_periodic a : gi_pow (- (a + 4)) = gi_pow (- a).
+Proof. unfold gi_pow. replace (- (a + 4)) with (- a + (-1) * 4) by lia. now rewrite Z.mod_add by lia. Qed.
+
+(* 2 pi periodicity: H depends on k = (pi/2)(qa, qb) only through (i^qa, i^qb) *)
+Theorem hk_gauss_periodic_a es cr J col u qa qb a b :
+  hk_gauss es cr J col u (qa + 4) qb a b = hk_gauss es cr J col u qa qb a b.
+Proof. unfold hk_gauss. now rewrite gi_pow_periodic, gi_pow_neg_periodic. Qed.
+
+Theorem hk_gauss_periodic_b es cr J col u qa qb a b :
+  hk_gauss es cr J col u qa (qb + 4) a b = hk_gauss es cr J col u qa qb a b.
+Proof. unfold hk_gauss. now rewrite gi_pow_periodic, gi_pow_neg_periodic. Qed.
+
+Theorem hk_gauss_gamma es cr J col u a b : (length es <= length cr)%nat ->
+  hk_gauss es cr J col u 0 0 a b = ham_gauss es J col u a b.
+Proof.
+  intros H. unfold hk_gauss, ham_gauss. change (gi_pow (- 0)) with g1. change (gi_pow 0) with g1.
+  apply (hk_gamma gz g0 g1 gadd gmul gsub gopp gz_ring). lia.
+Qed.
+
+(* conjugation on Z[i] satisfies the hypotheses of hk_hermitian, and |i^q| = 1 *)
+Theorem hk_gauss_hermitian es cr J col u qa qb a b :
+  gconj (hk_gauss es cr J col u qa qb b a) = hk_gauss es cr J col u qa qb a b.
+Proof.
+  unfold hk_gauss.
+  apply (hk_hermitian gz g0 g1 gadd gmul gsub gopp gz_ring gconj).
+  - intros [x1 x2] [y1 y2]. unfold gconj, gadd. cbn [fst snd]. f_equal; ring.
+  - intros [x1 x2] [y1 y2]. unfold gconj, gmul. cbn [fst snd]. f_equal; ring.
+  - reflexivity.
+  - reflexivity.
+  - intros [x1 x2]. unfold gconj. cbn [fst snd]. f_equal; ring.
+  - apply gconj_gi_pow.
+  - apply gconj_gi_pow.
+Qed.
+
+(* ================================================================== (5) the Q functionals *)
+Local Open Scope Q_scope.
+
+Definition qabs_fold (init : Q) (r : list Q) : Q :=
+  fold_right (fun y m => if Qle_bool (Qabs y) m then Qabs y else m) init r.
+
+Lemma qabs_fold_spec init r :
+  qabs_fold init r <= init /\
+  (forall y, In y r -> qabs_fold init r <= Qabs y) /\
+  (qabs_fold init r = init \/ exists y, In y r /\ qabs_fold init r = Qabs y).
+Proof.
+  induction r as [|a r IH].
+  - split; [apply Qle_refl|]. split; [intros y []|left; reflexivity].
+  - destruct IH as (H1 & H2 & H3). unfold qabs_fold in *. cbn [fold_right].
+    set (F := fold_right _ init r) in *.
+    destruct (Qle_bool (Qabs a) F) eqn:E.
+    + apply Qle_bool_iff in E. split; [eapply Qle_trans; eassumption|]. split.
+      * intros y [<-|Hy]; [apply Qle_refl|]. eapply Qle_trans; [exact E|auto].
+      * right. exists a. split; [left|]; reflexivity.
+    + assert (Ha : F <= Qabs a).
+      { apply Qlt_le_weak, Qnot_le_lt. intros H. apply Qle_bool_iff in H. congruence. }
+      split; [assumption|]. split.
+      * intros y [<-|Hy]; auto.
+      * destruct H3 as [H3|(y & Hy & H3)]; [left; assumption|].
+        right. exists y. split; [right|]; assumption.
+Qed.
+
+Lemma qabs_min_cons x r : qabs_min (x :: r) = Some (qabs_fold (Qabs x) r).
+Proof. reflexivity. Qed.
+
+(* qabs_min returns a lower bound of all |x| that is attained (even up to Leibniz equality) *)
+Lemma qabs_min_attained l m : qabs_min l = Some m ->
+  (forall x, In x l -> m <= Qabs x) /\ (exists x, In x l /\ m = Qabs x).
+Proof.
+  destruct l as [|x r]; [discriminate|]. rewrite qabs_min_cons. intros E. injection E as <-.
+  destruct (qabs_fold_spec (Qabs x) r) as (H1 & H2 & H3). split.
+  - intros y [<-|Hy]; auto.
+  - destruct H3 as [H3|(y & Hy & H3)].
+    + exists x. split; [left; reflexivity|assumption].
+    + exists y. split; [right|]; assumption.
+Qed.
+
+Theorem qabs_min_spec l m : qabs_min l = Some m ->
+  (forall x, In x l -> m <= Qabs x) /\ (exists x, In x l /\ m == Qabs x).
+Proof.
+  intros H. destruct (qabs_min_attained l m H) as (H1 & x & Hx & ->).
+  split; [assumption|]. exists x. split; [assumption|apply Qeq_refl].
+Qed.
+
+Lemma qabs_min_none l : qabs_min l = None <-> l = [].
+Proof. destruct l; split; intros H; (reflexivity || discriminate). Qed.
+
+Lemma qabs_min_some l : l <> [] -> exists m, qabs_min l = Some m.
+Proof. destruct l as [|x r]; [congruence|]. intros _. eexists. reflexivity. Qed.
+
+(* gap_size = min |E| over the lower halves of all sampled spectra *)
+Theorem gap_size_spec spectra m : gap_size spectra = Some m ->
+  (forall x, In x (flat_map lower_half spectra) -> m <= Qabs x) /\
+  (exists x, In x (flat_map lower_half spectra) /\ m == Qabs x).
+Proof. apply qabs_min_spec. Qed.
+
+Lemma gap_size_none spectra : gap_size spectra = None <-> flat_map lower_half spectra = [].
+Proof. apply qabs_min_none. Qed.
+
+(* gaps: per momentum, qabs_min of the full spectrum *)
+Theorem gaps_spec spectra :
+  length (gaps spectra) = length spectra /\
+  forall i, nth i (gaps spectra) None = qabs_min (nth i spectra []).
+Proof.
+  unfold gaps. split; [apply map_length|]. intros i.
+  change (@None Q) with (qabs_min []). apply map_nth.
+Qed.
+
+Theorem ground_state_per_site_spec spectra n : spectra <> [] -> (0 < n)%Z ->
+  ground_state_per_site spectra n * (inject_Z (Z.of_nat (length spectra)) * inject_Z n)
+  == 2 * qsum (flat_map lower_half spectra).
+Proof.
+  intros Hs Hn. unfold ground_state_per_site. rewrite Qmult_comm. apply Qmult_div_r.
+  rewrite <- inject_Z_mult. intros H. unfold Qeq in H. cbn [Qnum Qden inject_Z] in H.
+  destruct spectra as [|a l]; [congruence|]. cbn [length] in H. nia.
+Qed.
+
+Lemma lower_half_length es : length (lower_half es) = Nat.div (length es) 2.
+Proof.
+  unfold lower_half. rewrite firstn_length. apply Nat.min_l.
+  pose proof (Nat.div_mod (length es) 2 ltac:(lia)). lia.
+Qed.
+
+Lemma lower_half_prefix es : es = lower_half es ++ skipn (Nat.div (length es) 2) es.
+Proof. unfold lower_half. symmetry. apply firstn_skipn. Qed.
+
+(* the momentum grid: nkx*nky points, point my*nkx+mx is (mx/nkx, my/nky), endpoint 1 excluded *)
+Lemma k_grid_length nkx nky : length (k_grid nkx nky) = Z.to_nat (nkx * nky).
+Proof. unfold k_grid. now rewrite map_length, zrange_length. Qed.
+
+Lemma k_grid_nth nkx nky mx my : (0 <= mx < nkx)%Z -> (0 <= my < nky)%Z ->
+  znth (my * nkx + mx) (k_grid nkx nky) (0, 0) = (mx # Z.to_pos nkx, my # Z.to_pos nky).
+Proof.
+  intros Hx Hy. unfold k_grid.
+  rewrite znth_map with (d' := 0%Z) by (rewrite zlen_zrange; nia).
+  rewrite znth_zrange by nia. rewrite cell_mod, cell_div by lia. reflexivity.
+Qed.
+
+Lemma k_grid_range nkx nky p : (1 <= nkx)%Z -> (1 <= nky)%Z -> In p (k_grid nkx nky) ->
+  0 <= fst p < 1 /\ 0 <= snd p < 1.
+Proof.
+  intros Hx Hy Hin. unfold k_grid in Hin. apply in_map_iff in Hin. destruct Hin as (n & <- & Hn).
+  apply In_zrange in Hn. cbn [fst snd].
+  destruct (cell_decompose nkx nky n Hx Hn) as (_ & H1 & H2).
+  unfold Qle, Qlt. cbn [Qnum Qden]. rewrite !Z2Pos.id by lia. lia.
+Qed.
+
+Theorem k_grid_spec nkx nky : (1 <= nkx)%Z -> (1 <= nky)%Z ->
+  length (k_grid nkx nky) = Z.to_nat (nkx * nky) /\
+  (forall mx my, (0 <= mx < nkx)%Z -> (0 <= my < nky)%Z ->
+     znth (my * nkx + mx) (k_grid nkx nky) (0, 0) = (mx # Z.to_pos nkx, my # Z.to_pos nky)) /\
+  (forall p, In p (k_grid nkx nky) -> 0 <= fst p < 1 /\ 0 <= snd p < 1).
+Proof.
+  intros Hx Hy. split; [apply k_grid_length|]. split; [intros; now apply k_grid_nth|].
+  intros p. now apply k_grid_range.
+Qed.
